@@ -288,3 +288,78 @@ func isIntType(t types.Type) bool {
 	b, ok := t.Underlying().(*types.Basic)
 	return ok && b.Info()&types.IsInteger != 0
 }
+
+// c10EnumMarker — C10.R15: an explicit enum value is kept as declared. The
+// grammar marks "no explicit value" with a constant the EnumValue action stores
+// and the Enum action tests before it numbers the member; Thrift enum values
+// are non-negative, so the marker is negative and the test is `Value < 0` — a
+// marker that is itself a legal value (0) renumbers every member declared
+// with that value (`UNKNOWN = 0` after `ACTIVE = 1` becomes 2).
+func c10EnumMarker(ctx *core.Ctx, cc *CC, rule string) {
+	ctx.Rule(rule, "explicit enum values are kept: the no-explicit-value marker is a negative constant and implicit numbering applies only where Value < 0", 2)
+	pp := cc.Pkg("parser")
+	if pp == nil {
+		return
+	}
+	marker, nNum := false, 0
+	for _, fn := range cc.Fns {
+		if fn.Pkg != pp {
+			continue
+		}
+		ssax.Instrs(fn, func(in ssa.Instruction) {
+			st, ok := in.(*ssa.Store)
+			if !ok {
+				return
+			}
+			fa, ok := st.Addr.(*ssa.FieldAddr)
+			if !ok || fieldNameOfAddr(fa) != "Value" || !ssax.TypeNamed(fa.X.Type(), "", "EnumValue") {
+				return
+			}
+			if k, isK := ssax.ConstInt(st.Val); isK {
+				if k < 0 {
+					if _, isAlloc := ssax.Strip(fa.X).(*ssa.Alloc); isAlloc {
+						marker = true
+					}
+				}
+				return
+			}
+			// the implicit number: a running counter (loop φ, or a counter cell) — not
+			// the explicit value the EnumValue action converts from the parsed literal
+			switch x := st.Val.(type) {
+			case *ssa.Phi:
+			case *ssa.UnOp:
+				if x.Op != token.MUL {
+					return
+				}
+			default:
+				return
+			}
+			nNum++
+			under := false
+			for b := in.Block(); b != nil && b.Idom() != nil; b = b.Idom() {
+				d := b.Idom()
+				iff, isIf := d.Instrs[len(d.Instrs)-1].(*ssa.If)
+				if !isIf || len(b.Preds) != 1 || b.Preds[0] != d || d.Succs[0] != b {
+					continue
+				}
+				bo, isB := iff.Cond.(*ssa.BinOp)
+				if !isB || bo.Op != token.LSS {
+					continue
+				}
+				if z, isZ := ssax.ConstInt(bo.Y); !isZ || z != 0 {
+					continue
+				}
+				if ld, isLd := ssax.Strip(bo.X).(*ssa.UnOp); isLd && ld.Op == token.MUL && fieldNameOfAddr(ld.X) == "Value" {
+					under = true
+				}
+			}
+			ctx.Check(under, rule, QName(fn)+sprintf(" › implicit number #%d is given only where Value < 0", nNum), cc.IPos(in), "the store is on the true edge of Value < 0",
+				"a member is renumbered under another test than Value < 0 (e.g. Value == 0): a member declared with that legal value explicitly — `UNKNOWN = 0` after `ACTIVE = 1` — silently gets the next implicit number, so the model (and every generated constant) differs from the IDL")
+		})
+	}
+	ctx.Check(marker, rule, "EnumValue action › a member without explicit value is marked with a negative constant", "", "Value: <negative constant> in the action that builds the EnumValue",
+		"no negative marker is stored for a member without an explicit value: the marker is the zero value, which is also what `= 0` declares — explicit zeros cannot be told from missing values")
+	if nNum == 0 {
+		ctx.Unresolved(rule, "enum numbering", "no computed store to EnumValue.Value found")
+	}
+}
